@@ -290,6 +290,8 @@ Response(U, doc, opName, given, dv) ==
   IN IF DocRejected(U, doc, dv)
      THEN [hasData |-> FALSE, data |-> NullV, errs |-> <<ErrRec(<<>>, "rejected", "")>>, calls |-> <<>>]
      ELSE IF i = 0 THEN [hasData |-> FALSE, data |-> NullV, errs |-> <<ErrRec(<<>>, "no_operation", opName)>>, calls |-> <<>>]
+     \* an operation of a kind the schema has no root type for
+     ELSE IF doc.ops[i].type \notin DOMAIN U.roots THEN [hasData |-> FALSE, data |-> NullV, errs |-> <<ErrRec(<<>>, "no_root", doc.ops[i].type)>>, calls |-> <<>>]
      ELSE LET op == doc.ops[i]
               C == [U |-> U, doc |-> doc, vars |-> VarVals(op, given), dv |-> dv]
               r == ExecSels(C, U.roots[op.type], op.sels, <<>>)
